@@ -436,6 +436,7 @@ REVIEWED_SKIP_PREDICATES = {
     },
     'component::CannotTakeMutReferenceError::check_callable': set(),
 }
+REVIEWED_MODULES = ('analyses::user_components::scope_graph::',)
 _GENERIC_PREDICATES = ('eq', 'ne', 'is_some', 'is_none', 'is_empty', 'is_ok', 'is_err', 'contains', 'contains_key', 'len', 'lt', 'le', 'gt', 'ge',
                        'matches', 'starts_with', 'ends_with')
 
@@ -521,7 +522,9 @@ def r7_skip_conditions(ctx):
                     for c in expand(c0):
                         if c.startswith('pavexc::') or c.split('::')[-1] in _GENERIC_PREDICATES:
                             found.setdefault(c.replace('pavexc::compiler::', ''), b.loc(W))
-        new = sorted(set(found) - reviewed)
+        # navigating the scope graph (parents of a scope, walk order) is reviewed as a module: it decides where a lookup looks, never whether an
+        # item of the checked domain is examined
+        new = sorted(x for x in set(found) - reviewed if not x.startswith(REVIEWED_MODULES))
         ctx.ob('C08.R7', 'skip-conditions|%s' % short, not new, found[new[0]] if new else bodies[0].loc(),
                '%d predicate(s) decide what %s skips; not in the reviewed table: %s' % (len(found), short.split('::')[-1], new or 'none'))
     ctx.floor('C08.R7', 'skip-deciding branches in the roster checkers', n, 60)
